@@ -875,8 +875,13 @@ def check_instance(fx, R, cq, cname):
                     diff = sp.Matrix(got) - sp.Matrix(expected)
                     v = alg.decide_zero(diff[0, 0] if diff.shape[0] else sp.Integer(0))
                     bad = None
+                    pconds = [(c_[1], c_[2]) for c_ in st.cond if c_[0] not in ('True', 'False') and isinstance(c_[1], sp.Basic)]
                     for d_ in diff:
-                        v = alg.decide_zero(sp.together(d_))
+                        if pconds:
+                            # the witness must TAKE this path: weights are drawn from (0.5, 4), everything else from (-3, 3)
+                            v = alg.decide_zero_on_path(sp.together(d_), pconds, tries=120, domain=lambda y_: (50, 400) if y_ in wsyms else (-300, 300))
+                        else:
+                            v = alg.decide_zero(sp.together(d_))
                         if v[0] == 'nonzero':
                             bad = v
                             break
